@@ -209,7 +209,19 @@ func (r *runner) method(recv starlark.Value, name string, args ...starlark.Value
 	return r.call(m, args...)
 }
 
-func val(v int) starlark.Value { return starlark.MakeInt(v) }
+// val maps a value code to a dict value; some codes give values that a careless "is the key present?" test
+// confuses with absence: None, False, the empty string.
+func val(v int) starlark.Value {
+	switch v % 10 {
+	case 7:
+		return starlark.None
+	case 8:
+		return starlark.False
+	case 9:
+		return starlark.String("")
+	}
+	return starlark.MakeInt(v)
+}
 
 func (r *runner) listOfKeys(ks []int) *starlark.List {
 	var elems []starlark.Value
@@ -849,7 +861,7 @@ func (r *runner) final() error {
 			if i > 0 {
 				sb.WriteString(", ")
 			}
-			fmt.Fprintf(&sb, "%s: %d", r.keys[k].String(), r.m.vals[k])
+			fmt.Fprintf(&sb, "%s: %s", r.keys[k].String(), val(r.m.vals[k]).String())
 			fresh.SetKey(r.keys[k], val(r.m.vals[k]))
 		}
 		sb.WriteString("}")
